@@ -528,13 +528,22 @@ def check_nra(assertions, timeout_ms=30000, want_model=False):
     return (res, model, table) if want_model else res
 
 
-def interval_lemmas(terms_with_bounds, widen=1e-9):
+def interval_lemmas(terms_with_bounds, widen=1e-9, conditional=False, funcs=("sin", "cos", "tan")):
     """For (arg_term, lo, hi) with numeric bounds: enclosures of sin/cos (and tan/atan if applicable) over [lo,hi],
     computed with libm and widened by `widen` (trusted: libm accurate to << 1e-9)."""
     sin, cos, tan = uf_decl("sin"), uf_decl("cos"), uf_decl("tan")
-    out = []
+    asin_, acos_ = uf_decl("asin"), uf_decl("acos")
+    res_out = []
     for t, lo, hi in terms_with_bounds:
         lo, hi = float(lo), float(hi)
+        out = []
+        if "asin" in funcs and -1 <= lo <= hi <= 1:
+            out += [asin_(t) >= z3.RealVal(_F(_math.asin(lo) - widen * 100)), asin_(t) <= z3.RealVal(_F(_math.asin(hi) + widen * 100))]
+        if "acos" in funcs and -1 <= lo <= hi <= 1:
+            out += [acos_(t) <= z3.RealVal(_F(_math.acos(lo) + widen * 100)), acos_(t) >= z3.RealVal(_F(_math.acos(hi) - widen * 100))]
+        if not ({"sin", "cos", "tan"} & set(funcs)):
+            res_out += [z3.Implies(z3.And(t >= z3.RealVal(_F(lo)), t <= z3.RealVal(_F(hi))), z3.And(out))] if conditional else out
+            continue
         # sin
         cands = [_math.sin(lo), _math.sin(hi)]
         k = _math.ceil((lo - _math.pi / 2) / _math.pi)
@@ -553,7 +562,8 @@ def interval_lemmas(terms_with_bounds, widen=1e-9):
         if lo > -_math.pi / 2 + 1e-3 and hi < _math.pi / 2 - 1e-3:
             out += [tan(t) >= z3.RealVal(_F(_math.tan(lo) - widen * (1 + _math.tan(lo) ** 2) * 10)),
                     tan(t) <= z3.RealVal(_F(_math.tan(hi) + widen * (1 + _math.tan(hi) ** 2) * 10))]
-    return out
+        res_out += [z3.Implies(z3.And(t >= z3.RealVal(_F(lo)), t <= z3.RealVal(_F(hi))), z3.And(out))] if conditional else out
+    return res_out
 
 
 def lemmas_min(assertions, lip=(), mono=(), pyth=(), extra_terms=(), special=False, expand=(), neg=(), inj=()):
